@@ -18,7 +18,9 @@ EXTENDS Integers, Sequences, FiniteSets, TLC, Json
 
 CONSTANTS Classes,     \* sequence of label classes; a class is a sequence of spellings (strings)
           MaxR, MaxD,  \* bounds on the number of items of R and D
-          DefKinds,    \* sequence of definition layouts: "one" | "title" | "nextline"
+          DefKinds,    \* sequence of definition layouts: "one" | "title" | "nextline" (destination and title
+                       \* on their own lines) | "multiline" (title over two lines) | "bsline" (a backslash
+                       \* before the line break inside the title) | "lfref" (a line-feed character reference in the title)
           MaxSpell     \* spellings per class used by the exhaustive configurations
 
 VARIABLES R, D, hist, phase,
